@@ -456,3 +456,12 @@ Definition ex_eps : list ep :=
 Example bswl_counts_example :
   match build_static_weight_list ex_eps with BOk c _ => map (cntz c) [0; 1; 2]%nat = [1; 1; 100] /\ length c = 102%nat | BPanic _ => False end.
 Proof. vm_compute. split; reflexivity. Qed.
+
+(* the code as pinned (before fix 675061a), for the record: the same model with the guard and the capacity as they were *)
+Definition ep_w (h : N) (w : Z) : ep := {| host := [h]; skey := [h]; wgt := w; wty := 1 |}.
+Example pinned_code_panics :
+  bswl_gen false [ep_w 97 0; ep_w 98 0] = BPanic DivByZero /\
+  bswl_gen false [ep_w 97 (-200)] = BPanic MakeSliceCap /\
+  (match bswl_gen false (map (fun h => ep_w h 2147483647) [97; 98; 99; 100; 101; 102; 103; 104]%N) with
+   | BOk _ a => 17179869184 < a | BPanic _ => False end).
+Proof. vm_compute. repeat split; reflexivity. Qed.
